@@ -106,3 +106,28 @@ def I_root (w : World) : Prop :=
   ∀ v, ((w.val v).isIn = true ∨ (w.val v).isInit = true) → (w.val v).producer = none
 
 end IrVerif.Kernel
+
+namespace IrVerif.Kernel
+
+/-- ownership: reference counters equal multiplicities; membership in a tracked collection and the
+ownership flag / owning graph of the value agree in both directions; a value that names an owning
+graph carries at least one flag (so a value is owned by at most one graph) -/
+structure I_own (w : World) : Prop where
+  cnt : ∀ k g v, lget (ioCnt k (w.gr g)) v = (ioList k (w.gr g)).count v
+  io_mem : ∀ k g v, v ∈ ioList k (w.gr g) → ioFlag k (w.val v) = true ∧ (w.val v).graph = some g
+  io_flag : ∀ k v, ioFlag k (w.val v) = true → ∃ g, (w.val v).graph = some g ∧ v ∈ ioList k (w.gr g)
+  init_mem : ∀ g key v, (key, v) ∈ (w.gr g).inits → (w.val v).isInit = true ∧ (w.val v).graph = some g
+  init_flag : ∀ v, (w.val v).isInit = true → ∃ g key, (w.val v).graph = some g ∧ (key, v) ∈ (w.gr g).inits
+  graph_owned : ∀ v g, (w.val v).graph = some g → owned (w.val v) = true
+
+/-- every initializer is stored under its current, non-empty name; keys are distinct -/
+structure I_key (w : World) : Prop where
+  name : ∀ g key v, (key, v) ∈ (w.gr g).inits → (w.val v).name = some key ∧ key ≠ ""
+  keys : ∀ g, ((w.gr g).inits.map Prod.fst).Nodup
+
+/-- a node names a graph exactly when that graph's node sequence contains it, once -/
+structure I_node (w : World) : Prop where
+  mem : ∀ n g, (w.node n).graph = some g ↔ n ∈ (w.gr g).nodes
+  nodup : ∀ g, (w.gr g).nodes.Nodup
+
+end IrVerif.Kernel
